@@ -146,11 +146,16 @@ CHECKS = {
     ),
     "C16": dict(
         category="translation_validation",
-        text=("The published bounds are existential: a witness sequence (the greedy result, once accepted by Lean's Spec.realizes, with "
-              "its peak stack computed by Lean) shows init_progr_len and max_sk_sz feasible; min_length must not exceed the length of any "
-              "realizing sequence seen; original_instrs must be the sub-block. A witness outside the bounds decides nothing."),
+        text=("Universal clause: Spec.min_length_le (kernel-checked, all instruction sequences): every sequence that realizes a specification in the sense "
+              "of C04 has at least minInstr instructions, by conservation of stack cells per value (each creation and each pop is one instruction, "
+              "every needed operation is executed at least once because a cell of its value has no other origin). Its premises are executable and "
+              "are evaluated by the Lean driver on every specification the real front end emits; minInstr, computed by Lean on the emitted "
+              "specification, must be the tool's min_length_instrs. Where they differ, or the position-bound component of min_length is the larger one, "
+              "sequences shorter than min_length are searched exhaustively. Existential clause: a witness sequence (the greedy result, once accepted by "
+              "Lean's Spec.realizes, with its peak stack computed by Lean) shows init_progr_len and max_sk_sz feasible; small specifications whose witness "
+              "does not fit are decided by exhaustive enumeration. original_instrs must be the sub-block."),
         design_ref="DESIGN.md section 8, C16",
-        technique="witness validation with the Lean 'realizes' checker over real specifications",
+        technique="Lean 4 theorem over all realizing sequences (minimum length) with per-specification premise evaluation and count correspondence; witness validation with the Lean 'realizes' checker for the existential bounds",
     ),
     "C17": dict(
         category="translation_validation",
